@@ -4,7 +4,9 @@
   MIRRORS the Python: `_get_command_function` + the prefix loop of `main` (`lookup`),
   `getopt.getopt` for short options (`getopt`), the `for o, a in opts` chain (`applyOpts`),
   `int(s, 0)` / `int(s)` (`pyInt`), `parse_interface_options`, `cmd_raw`, the `except` clauses
-  of `main` (`exitOf`) and the whole of `main` up to the call of the handler (`mainModel`).
+  of `main` (`exitOf`), the try / except / finally around the handler call (`mainEnd`), the whole of `main`
+  up to the call of the handler (`mainModel`), the numeric conversions of the handlers (`ArgConv`) and what
+  the printing handlers do with optional API results (`HandlerShape`).
 
   Strings are lists of code points (`Str = List Nat`) so that every table check is a `Nat`
   computation in the kernel and every proof is a proof about lists.  Tables (command table,
@@ -306,7 +308,7 @@ inductive Conv where
   | int0                         -- x = int(a, 0)
   | int10                        -- x = int(a)
   | constTrue                    -- x = True
-  | routeChannel (rq ch : Nat)   -- x = [(rq, int(a), ch)]
+  | routeChannel (rq ch : Nat) (base0 : Bool)   -- x = [(rq, int(a), ch)] / [(rq, int(a, 0), ch)]
   deriving Repr, DecidableEq
 
 inductive OptAct where
@@ -333,7 +335,7 @@ def convert : Conv → Str → Option Val
   | .int0, a => (pyInt0 a).map .int
   | .int10, a => (pyInt10 a).map .int
   | .constTrue, _ => some (.bool true)
-  | .routeChannel rq ch, a => (pyInt10 a).map fun n => .route rq n ch
+  | .routeChannel rq ch base0, a => (pyInt base0 a).map fun n => .route rq n ch
 
 def ruleOf (rules : List OptRule) (c : Nat) : Option OptAct :=
   (rules.find? (fun r => r.opt == c)).map (·.act)
@@ -463,22 +465,106 @@ def printHex : List Nat → Str
   | [b] => [hexDigit (b / 16), hexDigit (b % 16)]
   | b :: c :: rest => hexDigit (b / 16) :: hexDigit (b % 16) :: 32 :: printHex (c :: rest)
 
+/-! ## numeric arguments of the handlers -/
+
+/-- one `int(args[k])` / `int(args[k], 0)` of a handler: table entry, argument index, base 0? -/
+structure ArgConv where
+  entry : Nat
+  arg : Nat
+  base0 : Bool
+  deriving Repr, DecidableEq
+
+def ArgConv.parse (c : ArgConv) (s : Str) : Option Int := pyInt c.base0 s
+
+/-- the conversions that do NOT read `0x…` (the property quantifies over decimal and hex) -/
+def base10Args (l : List ArgConv) : List (Nat × Nat) := (l.filter (!·.base0)).map fun c => (c.entry, c.arg)
+
+/-- option letters whose value is converted with `int(a)` -/
+def base10Opts (rules : List OptRule) : List Nat :=
+  rules.filterMap fun r => match r.act with
+    | .assign _ .int10 => some r.opt
+    | .assign _ (.routeChannel _ _ false) => some r.opt
+    | _ => none
+
 /-! ## exception → exit status -/
 
-inductive ExcKind where
-  | completionCode
-  | timeout
-  | keyboardInterrupt
-  | other (name : Nat)
+/-- the exception classes of `pyipmi/errors.py` (every one derives directly from `Exception`) -/
+inductive LibErr where
+  | decodingError | encodingError | ipmiTimeoutError | completionCodeError | notSupportedError
+  | descriptionError | retryError | dataNotFound | hpmError | ipmiConnectionError | ipmiLongPasswordError
   deriving Repr, DecidableEq
+
+def LibErr.all : List LibErr :=
+  [.decodingError, .encodingError, .ipmiTimeoutError, .completionCodeError, .notSupportedError,
+   .descriptionError, .retryError, .dataNotFound, .hpmError, .ipmiConnectionError, .ipmiLongPasswordError]
+
+def LibErr.className : LibErr → String
+  | .decodingError => "DecodingError"
+  | .encodingError => "EncodingError"
+  | .ipmiTimeoutError => "IpmiTimeoutError"
+  | .completionCodeError => "CompletionCodeError"
+  | .notSupportedError => "NotSupportedError"
+  | .descriptionError => "DescriptionError"
+  | .retryError => "RetryError"
+  | .dataNotFound => "DataNotFound"
+  | .hpmError => "HpmError"
+  | .ipmiConnectionError => "IpmiConnectionError"
+  | .ipmiLongPasswordError => "IpmiLongPasswordError"
+
+def LibErr.ofName (n : String) : Option LibErr := LibErr.all.find? (fun c => c.className == n)
+
+/-- what can arrive at the `except` clauses of `main` -/
+inductive Raised where
+  | lib (c : LibErr)
+  | socketTimeout               -- `socket.timeout` (= `TimeoutError` ⊂ `OSError`): the transport gave up waiting
+  | keyboardInterrupt
+  | other (name : String)       -- any other subclass of `Exception` that is not an `OSError`
+  deriving Repr, DecidableEq
+
+/-- BMC error codes and time-outs, however the library reports them -/
+def Raised.isFailure : Raised → Bool
+  | .lib _ => true
+  | .socketTimeout => true
+  | _ => false
+
+def Raised.name : Raised → String
+  | .lib c => c.className
+  | .socketTimeout => "TimeoutError"
+  | .keyboardInterrupt => "KeyboardInterrupt"
+  | .other n => n
+
+/-- a class named in an `except` clause -/
+inductive ExcKind where
+  | lib (c : LibErr)            -- pyipmi.errors.<c>
+  | socketTimeout               -- socket.timeout / TimeoutError
+  | osError                     -- OSError / IOError / EnvironmentError / socket.error
+  | exception                   -- Exception
+  | baseException               -- BaseException
+  | keyboardInterrupt
+  | other (name : String)
+  deriving Repr, DecidableEq
+
+/-- `isinstance(raised, clause class)` -/
+def ExcKind.catches : ExcKind → Raised → Bool
+  | .lib c, .lib d => c == d
+  | .socketTimeout, .socketTimeout => true
+  | .osError, .socketTimeout => true
+  | .exception, .keyboardInterrupt => false
+  | .exception, _ => true
+  | .baseException, _ => true
+  | .keyboardInterrupt, .keyboardInterrupt => true
+  | .other n, .other m => n == m
+  | _, _ => false
 
 inductive MsgFmt where
   | lit (s : Str)
   | hex2cc (pre : Str)         -- '<pre>%02x' % e.cc
+  | reprExc (pre : Str)        -- '<pre>%r' % e
+  | strExc (pre : Str)         -- '<pre>%s' % e
   deriving Repr, DecidableEq
 
 structure ExitClause where
-  exc : ExcKind
+  excs : List ExcKind          -- `except A:` / `except (A, B, …):`
   msg : Option MsgFmt
   status : Nat
   deriving Repr, DecidableEq
@@ -488,30 +574,161 @@ structure ExitResult where
   message : Str
   deriving Repr, DecidableEq
 
-def excOf {α} : Outcome α → Option ExcKind
-  | .ccError _ => some .completionCode
-  | .timeoutError => some .timeout
-  | .pyError "KeyboardInterrupt" => some .keyboardInterrupt
-  | _ => none
+/-- what the message formats read off the exception object (opaque text comes from the run) -/
+structure ExcInfo where
+  cc : Nat := 0
+  repr : Str := []
+  str : Str := []
+  deriving Repr, DecidableEq
 
-def fmtMsg {α} (o : Outcome α) : Option MsgFmt → Str
+def fmtMsg (i : ExcInfo) : Option MsgFmt → Str
   | none => []
   | some (.lit s) => s
-  | some (.hex2cc pre) =>
-    match o with
-    | .ccError c => pre ++ [hexDigit (c / 16 % 16), hexDigit (c % 16)]
-    | _ => pre
+  | some (.hex2cc pre) => pre ++ [hexDigit (i.cc / 16 % 16), hexDigit (i.cc % 16)]
+  | some (.reprExc pre) => pre ++ i.repr
+  | some (.strExc pre) => pre ++ i.str
 
-/-- what `main` does with the outcome of `ipmi.open(); cmd(ipmi, args)`:
-`some r` ↦ prints `r.message`, `sys.exit(r.status)`; `none` ↦ returns normally (outcome ok) or the
-exception propagates (any other exception) -/
-def exitOf {α} (clauses : List ExitClause) (o : Outcome α) : Option ExitResult :=
-  match excOf o with
+/-- the first clause (in source order) one of whose classes the exception is an instance of -/
+def clauseOf (clauses : List ExitClause) (e : Raised) : Option ExitClause :=
+  clauses.find? (fun c => c.excs.any (·.catches e))
+
+/-- what the `except` clauses of `main` do with exception `e`:
+`some r` ↦ prints `r.message`, `sys.exit(r.status)`; `none` ↦ no clause: the exception propagates -/
+def exitOf (clauses : List ExitClause) (e : Raised) (i : ExcInfo) : Option ExitResult :=
+  (clauseOf clauses e).map fun c => ⟨c.status, fmtMsg i c.msg⟩
+
+/-- how `main` ends -/
+inductive Ending where
+  | returns
+  | exits (status : Nat) (message : Str)            -- message printed, then SystemExit(status)
+  | raises (e : Raised) (printed : Option Str)      -- the exception leaves `main` (a traceback); a message may have been printed before
+  deriving Repr, DecidableEq
+
+def handleExc (clauses : List ExitClause) (e : Raised) (i : ExcInfo) : Ending :=
+  match exitOf clauses e i with
+  | some r => .exits r.status r.message
+  | none => .raises e none
+
+/-- The end of `main`: `body` = what `ipmi.open(); cmd(ipmi, args)` raised, `close` = what `ipmi.close()` raised.
+
+* `closeInside = false` (as shipped): `try: body  except …: print; sys.exit  finally: close` — the clauses do not
+  cover `close`, and an exception of `close` replaces the pending `SystemExit`;
+* `closeInside = true`: `try: (try: body finally: close)  except …` — whatever is raised last is mapped. -/
+def mainEnd (closeInside : Bool) (clauses : List ExitClause)
+    (body close : Option (Raised × ExcInfo)) : Ending :=
+  if closeInside then
+    match close, body with
+    | some (f, i), _ => handleExc clauses f i
+    | none, some (e, i) => handleExc clauses e i
+    | none, none => .returns
+  else
+    match body, close with
+    | none, none => .returns
+    | none, some (f, _) => .raises f none
+    | some (e, i), none => handleExc clauses e i
+    | some (e, i), some (f, _) =>
+      match exitOf clauses e i with
+      | some r => .raises f (some r.message)
+      | none => .raises f none
+
+/-! ### executable hypotheses of the error theorems (evaluated on the generated clauses by the driver) -/
+
+/-- a clause that ends the tool with a non-zero status and a non-empty message -/
+def ExitClause.reports (c : ExitClause) : Bool :=
+  c.status != 0 &&
+    (match c.msg with
+     | some (.lit s) => !s.isEmpty
+     | some (.hex2cc _) => true
+     | some (.reprExc pre) => !pre.isEmpty
+     | some (.strExc pre) => !pre.isEmpty
+     | none => false)
+
+/-- the clause that handles `e` (the first whose classes it is an instance of) reports -/
+def reportsB (cl : List ExitClause) (e : Raised) : Bool :=
+  match clauseOf cl e with
+  | some c => c.reports
+  | none => false
+
+/-- every failure class: the eleven classes of pyipmi.errors and the transport time-out -/
+def allFailures : List Raised := LibErr.all.map Raised.lib ++ [.socketTimeout]
+
+/-- the failures that `cl` does NOT end with a message and a non-zero status -/
+def escaping (cl : List ExitClause) : List Raised := allFailures.filter (fun e => !reportsB cl e)
+
+/-- executable hypothesis: every failure class is reported -/
+def exitsCover (cl : List ExitClause) : Bool := allFailures.all (reportsB cl)
+
+/-- the two classes the shipped clauses were written for -/
+def exitsWf (cl : List ExitClause) : Bool :=
+  reportsB cl (.lib .completionCodeError) && reportsB cl (.lib .ipmiTimeoutError)
+
+/-- an ending that the property accepts for a run on which something failed -/
+def Ending.reported : Ending → Bool
+  | .exits status message => status != 0 && !message.isEmpty
+  | _ => false
+
+/-! ## what the printing handlers do with values the API may legitimately return -/
+
+/-- Python's built-in hierarchy as far as the handlers meet it: does `except <clause>` catch `<raised>`? -/
+def pyAncestors (raised : String) : List String :=
+  if raised == "ZeroDivisionError" || raised == "OverflowError" || raised == "FloatingPointError" then
+    ["ArithmeticError", "Exception", "BaseException"]
+  else if raised == "IndexError" || raised == "KeyError" then ["LookupError", "Exception", "BaseException"]
+  else ["Exception", "BaseException"]
+
+def pyCatches (clause raised : String) : Bool := clause == raised || (pyAncestors raised).contains clause
+
+/-- facts the translator reads off the handlers -/
+structure HandlerShape where
+  linkNoneGuard : Bool         -- `print_link_state` tolerates `p is None` (channel without link)
+  idStringGuard : Bool         -- `sdr_show` prints `device_id_string` only if the record has one
+  entityGuard : Bool           -- … `entity_id` / `entity_instance` only if the record has them
+  convCatch : List (String × List String)
+      -- command ↦ exception classes caught somewhere between `convert_sensor_raw_to_value(…)` and `main`
+  deriving Repr, DecidableEq
+
+/-- `picmg portstate get` / `getall` on the pair `get_port_state` returns: `hasLink = false` ↦ `(None, None)` -/
+def linkStateRaises (h : HandlerShape) (hasLink : Bool) : Option String :=
+  if hasLink || h.linkNoneGuard then none else some "AttributeError"
+
+/-- the two header lines of `sdr_show` on a record object with / without the attributes -/
+def sdrShowRaises (h : HandlerShape) (hasIdString hasEntity : Bool) : Option String :=
+  if !hasIdString && !h.idStringGuard then some "AttributeError"
+  else if !hasEntity && !h.entityGuard then some "AttributeError"
+  else none
+
+/-- SDR record type ↦ (has `device_id_string`, has `entity_id`) of the class `SdrCommon.from_data` builds -/
+def sdrAttrs (classes : List (Nat × Bool × Bool)) (dflt : Bool × Bool) (t : Nat) : Bool × Bool :=
+  match classes.find? (fun c => c.1 == t) with
+  | some c => c.2
+  | none => dflt
+
+inductive Sign where
+  | neg | zero | pos
+  deriving Repr, DecidableEq
+
+/-- `SdrFullSensorRecord.lin` applied to x of the given sign, by linearisation code (sdr.py L_*):
+which Python exception, if any (`math.log(0)`, `1.0 / 0`, `math.sqrt(-1)`; magnitudes within float range) -/
+def linRaises (code : Nat) (s : Sign) : Option String :=
+  if code == 1 || code == 2 || code == 3 then (if s == .pos then none else some "ValueError")
+  else if code == 7 then (if s == .zero then some "ZeroDivisionError" else none)
+  else if code == 10 then (if s == .neg then some "ValueError" else none)
+  else none
+
+def catchOf (h : HandlerShape) (cmd : String) : List String :=
+  match h.convCatch.find? (fun e => e.1 == cmd) with
+  | some e => e.2
+  | none => []
+
+/-- does converting one reading / threshold in command `cmd` end the command with a Python error? -/
+def cellRaises (caught : List String) (code : Nat) (s : Sign) : Option String :=
+  match linRaises code s with
   | none => none
-  | some k =>
-    match clauses.find? (fun c => c.exc == k) with
-    | none => none
-    | some c => some ⟨c.status, fmtMsg o c.msg⟩
+  | some x => if caught.any (fun c => pyCatches c x) then none else some x
+
+/-- the classes a handler must catch around the conversion of a reading / threshold -/
+def catchesArithmetic (caught : List String) : Bool :=
+  caught.any (fun c => pyCatches c "ValueError") && caught.any (fun c => pyCatches c "ZeroDivisionError")
 
 /-! ## `main` up to the handler call -/
 
@@ -533,6 +750,7 @@ structure MainShape where
   vUser : Nat               --                         set_auth_type_user(<vUser>, <vPassword>)
   vPassword : Nat
   vPriv : Nat               --   if <vPriv> is not None: set_priv_level(<vPriv>)
+  closeInside : Bool        -- `ipmi.close()` in a try/finally INSIDE the try that has the except clauses
   deriving Repr
 
 def lower (s : Str) : Str := s.map fun c => if 65 ≤ c ∧ c ≤ 90 then c + 32 else c
